@@ -234,6 +234,9 @@ class World:
                 if c[4] and k == "np":
                     self.repeat.append((self.la, self.r, c[4], c[2], c[3], self.next_np(), self.dst))
                 return ("ok", None)
+            if op == "net_step_fail":
+                self.net.step(engine=self.engine(c[1]), **OPTS["O0"])    # no sampling time, no model parameters
+                return ("ok", None)
             if op == "init":
                 self.el[c[1]].init_vars(engine=self.engine(c[2]))
                 return ("ok", None)
@@ -362,8 +365,8 @@ def replay_transition(t: dict, same_names: bool = False) -> dict:
         cur_after = w.engines.get_current_engine()
         if c[0] not in ("use", "use_inst") and cur_after is not cur_before:
             out["c13"].append(["the selected engine changed without use()", c])
-        if c[0] in ("net_step", "init", "step", "init_all") and c[1 if c[0] in ("net_step", "init_all") else 2] != "" and hasattr(sel, "log") and sel.log:
-            if last[0] != "error":
+        if c[0] in ("net_step", "init", "step", "init_all", "net_step_fail") and c[1 if c[0] in ("net_step", "init_all", "net_step_fail") else 2] != "" and hasattr(sel, "log") and sel.log:
+            if last[0] != "error" or c[0] == "net_step_fail":
                 out["c13"].append(["an explicit engine was passed but the selected engine computed", c, sorted(set(sel.log))[:5]])
     c = hist[-1]
     exp = t["res"]
